@@ -305,9 +305,12 @@ Proof.
 Qed.
 
 (* ---------- static acceptance (some checker fuel suffices) *)
-Notation chkE := (chk_expr true false).
-Notation chkF := (chk_for true false).
-Notation chkD := (chk_ds true false).
+Section Co.
+(* co = false: COLLECT is rejected by the checker; co = true: the full checker *)
+Variable co : bool.
+Notation chkE := (chk_expr true co).
+Notation chkF := (chk_for true co).
+Notation chkD := (chk_ds true co).
 
 Definition ok_expr (e : expr) (ss : sframes) : Prop := exists cf, chkE cf e ss = COk.
 Definition ok_for (q : forq) (ss : sframes) : Prop := exists cf, chkF cf q ss = COk.
@@ -326,6 +329,21 @@ Inductive ok_stmts : list fclause -> sframes -> sframes -> Prop :=
 | oks_limit o c r fs fs'' : ok_stmts r fs fs'' -> ok_stmts (CLimit o c :: r) fs fs''
 | oks_collect g t r fs fs'' : ok_stmts r fs fs'' -> ok_stmts (CCollect g t :: r) fs fs''.
 
+Definition collect_vars (gs : list (name * expr)) (t : ctail) : list name :=
+  map fst gs ++ match t with
+                | CTInto x _ => [x]
+                | CTCount x => [x]
+                | CTAggr sels => map (fun s => fst (fst s)) sels
+                | CTNone => []
+                end.
+Definition tail_ok (t : ctail) (vv : name) (fs0 : sframes) : Prop :=
+  match t with
+  | CTInto _ (Some pe) => ok_expr pe fs0
+  | CTInto _ None => visible vv fs0 = true
+  | CTAggr sels => Forall (fun s => Forall (fun a => ok_expr a fs0) (snd s)) sels
+  | _ => True
+  end.
+
 Inductive iter_ok (ss : sframes) : iter -> sframes -> Prop :=
 | ok_indexed vv kv vals pos fs0 fs :
     bytes_eqb vv [] = false -> declare vv (sfork ss) = (COk, fs0) ->
@@ -341,7 +359,42 @@ Inductive iter_ok (ss : sframes) : iter -> sframes -> Prop :=
 | ok_sort src ks st fs :
     iter_ok ss src fs -> Forall (fun k => ok_expr (fst k) fs) ks ->
     (forall rows, st = Some rows -> Forall (sim fs) rows) ->
-    iter_ok ss (ItSort src ks st) fs.
+    iter_ok ss (ItSort src ks st) fs
+| ok_collect src gs t vv st fs0 fs :
+    co = true ->
+    iter_ok ss src fs0 ->
+    Forall (fun g => ok_expr (snd g) fs0) gs ->
+    tail_ok t vv fs0 ->
+    existsb (fun x => bytes_eqb x ign) (collect_vars gs t) = false ->
+    declare_all (collect_vars gs t) (sfork ss) = (COk, fs) ->
+    (forall rows, st = Some rows -> Forall (sim fs) rows) ->
+    iter_ok ss (ItCollect src gs t vv st) fs.
+
+Lemma declare_shape x f r ss' : declare x (f :: r) = (COk, ss') -> exists f', ss' = f' :: r.
+Proof.
+  unfold declare. destruct (bytes_eqb x ign); [intro H; inversion H; eauto|].
+  destruct (in_frame x f); intro H; inversion H; eauto.
+Qed.
+Lemma declare_all_shape : forall xs f r ss', declare_all xs (f :: r) = (COk, ss') -> exists f', ss' = f' :: r.
+Proof.
+  induction xs as [|x xr IH]; intros f r ss' H; cbn in H; [inversion H; eauto|].
+  destruct (declare x (f :: r)) as [c s1] eqn:D. destruct c; try (inversion H; fail).
+  apply declare_shape in D as [f1 ->]. eapply IH; exact H.
+Qed.
+Lemma ok_stmts_shape st fs fs' : ok_stmts st fs fs' -> forall f r, fs = f :: r -> exists f', fs' = f' :: r.
+Proof.
+  intro H. induction H; intros f0 r0 E; subst; eauto.
+  apply declare_shape in H0 as [f1 ->]. eapply IHok_stmts; reflexivity.
+Qed.
+Lemma iter_ok_shape ss it fs : iter_ok ss it fs -> exists f, fs = f :: ss.
+Proof.
+  intro H. induction H; auto.
+  - unfold sfork in *. apply declare_shape in H0 as [f1 ->].
+    destruct kv; [apply declare_shape in H1; exact H1|inversion H1; eauto].
+  - unfold sfork in *. apply declare_shape in H1. exact H1.
+  - destruct IHiter_ok as [f ->]. eapply ok_stmts_shape; eauto.
+  - unfold sfork in *. apply declare_all_shape in H4. exact H4.
+Qed.
 
 (* one evaluation step of each function, as equations *)
 Lemma hoare_outoffuel {A} (Q : A -> Prop) : hoare (fail OutOfFuel) Q.
@@ -670,7 +723,33 @@ Lemma chk_ds_limit cf d0 cnt off ss :
   | r => r
   end.
 Proof. reflexivity. Qed.
-Lemma chk_ds_collect cf d0 gs t vv ss : chkD (S cf) (DCollect d0 gs t vv) ss = (CNotFound, ss).
+Definition chk_list cf fs :=
+  fix gl (es : list expr) : cres :=
+    match es with [] => COk | x :: r => seq (chkE cf x fs) (fun _ => gl r) end.
+Definition chk_aggr cf fs :=
+  fix ga (ss : list (name * name * list expr)) : cres :=
+    match ss with
+    | [] => COk
+    | (_, _, args) :: sr => seq (chk_list cf fs args) (fun _ => ga sr)
+    end.
+Lemma chk_ds_collect cf d0 gs t vv ss :
+  chkD (S cf) (DCollect d0 gs t vv) ss =
+  if negb co then (CNotFound, ss) else
+  match chkD cf d0 ss with
+  | (COk, fs) =>
+      match seq (chk_list cf fs (map snd gs)) (fun _ =>
+              match t with
+              | CTInto _ (Some pe) => chkE cf pe fs
+              | CTInto _ None => if visible vv fs then COk else CNotFound
+              | CTAggr sels => chk_aggr cf fs sels
+              | _ => COk
+              end) with
+      | COk => if existsb (fun x => bytes_eqb x ign) (collect_vars gs t) then (CUnnamed, fs)
+               else declare_all (collect_vars gs t) (clear_top fs)
+      | err => (err, fs)
+      end
+  | r => r
+  end.
 Proof. reflexivity. Qed.
 
 Lemma limit_to_int_noscope v : scope_err (limit_to_int v) = false.
@@ -720,8 +799,30 @@ Proof.
     eapply hoare_bind; [apply hoare_lift with (Q := fun _ => True); [auto|apply limit_to_int_noscope]|intros ci _].
     eapply hoare_bind; [apply hoare_lift with (Q := fun _ => True); [auto|apply limit_to_int_noscope]|intros oi _].
     apply hoare_ret. constructor. exact Hit.
-  - (* DCollect: rejected by this checker *)
-    rewrite chk_ds_collect in C. inversion C.
+  - (* DCollect *)
+    rewrite chk_ds_collect in C.
+    assert (Eco : co = true) by (destruct co; [reflexivity|inversion C]).
+    replace (negb co) with false in C by (rewrite Eco; reflexivity). cbv iota in C.
+    destruct (chkD cf d0 ss) as [c0 fs0] eqn:D0. destruct c0; try (inversion C; fail).
+    match type of C with context [seq ?A ?B] => destruct (seq A B) eqn:SQ end; try (inversion C; fail).
+    apply seq_ok in SQ as [C1 C2].
+    destruct (existsb (fun x => bytes_eqb x ign) (collect_vars gs t)) eqn:Eign; [inversion C|].
+    eapply hoare_bind; [apply (HI d0 sc ss fs0 Sm); exists cf; exact D0|intros it Hit].
+    destruct (iter_ok_shape ss it fs0 Hit) as [f0 Efs0]. subst fs0. cbn [clear_top] in C. fold (sfork ss) in C.
+    assert (Hg : Forall (fun g => ok_expr (snd g) (f0 :: ss)) gs).
+    { apply chk_list_forall in C1. clear -C1. induction gs as [|[x e] r IH]; [constructor|].
+      inversion C1; subst. constructor; auto. }
+    assert (Ht : tail_ok t vv (f0 :: ss)).
+    { destruct t as [|x [pe|]|x|sels]; unfold tail_ok; auto.
+      - exists cf; exact C2.
+      - destruct (visible vv (f0 :: ss)); [reflexivity|discriminate].
+      - clear -C2. induction sels as [|[[x f] args] r IH]; [constructor|].
+        cbn [chk_aggr] in C2. apply seq_ok in C2 as [A B]. constructor; [apply chk_list_forall in A; exact A|apply IH; exact B]. }
+    apply hoare_ret.
+    eapply ok_collect with (fs0 := f0 :: ss); [exact Eco| |exact Hg|exact Ht|exact Eign|exact C|intros rows E; discriminate].
+    destruct gs as [|g gr]; [exact Hit|].
+    constructor; [exact Hit| |intros rows E; discriminate].
+    clear -Hg. induction Hg; cbn; constructor; auto.
 Qed.
 
 (* ---------- iterators *)
@@ -751,7 +852,7 @@ Lemma PN_indexed n vv kv vals pos sc ss fs :
   sim ss sc -> iter_ok ss (ItIndexed vv kv vals pos) fs ->
   hoare (next (S n) (ItIndexed vv kv vals pos) sc) (NPost ss fs).
 Proof.
-  intros Sm H. inversion H as [? ? ? ? fs0 ? EV D1 D2| | | | |]; subst. cbn [next_g].
+  intros Sm H. inversion H as [? ? ? ? fs0 ? EV D1 D2| | | | | |]; subst. cbn [next_g].
   destruct vals as [|v rest]; [apply hoare_ret; exact I|].
   eapply hoare_bind; [apply (sim_declare vv v (sfork ss) fs0 (fork sc) (sim_sfork ss sc Sm) D1)|intros s1 S1].
   eapply hoare_bind with (P := fun s2 => sim fs s2).
@@ -764,7 +865,7 @@ Lemma PN_while n (HE : PE n) dof vv cond pos sc ss fs :
   sim ss sc -> iter_ok ss (ItWhile dof vv cond pos) fs ->
   hoare (next (S n) (ItWhile dof vv cond pos) sc) (NPost ss fs).
 Proof.
-  intros Sm H. inversion H as [|? ? ? ? ? EV OC D| | | |]; subst. cbn [next_g].
+  intros Sm H. inversion H as [|? ? ? ? ? EV OC D| | | | |]; subst. cbn [next_g].
   eapply hoare_bind with (P := fun _ => True).
   - destruct (negb dof || (0 <? pos)); [|apply hoare_ret; exact I].
     eapply hoare_bind; [apply (HE cond sc ss Sm OC)|intros c _]. apply hoare_ret; exact I.
@@ -777,7 +878,7 @@ Lemma PN_tap n (HE : PE n) (HN : PN n) src st sc ss fs :
   sim ss sc -> iter_ok ss (ItTap src st) fs ->
   hoare (next (S n) (ItTap src st) sc) (NPost ss fs).
 Proof.
-  intros Sm H. inversion H as [| |? ? fs0 ? Hsrc Hst| | |]; subst. cbn [next_g].
+  intros Sm H. inversion H as [| |? ? fs0 ? Hsrc Hst| | | |]; subst. cbn [next_g].
   eapply hoare_bind; [apply (HN src sc ss fs0 Sm Hsrc)|intros r Hr].
   destruct r as [[s src']|]; [|apply hoare_ret; exact I]. destruct Hr as [Ss Hsrc'].
   eapply hoare_bind; [apply hoare_check_ctx|intros _ _].
@@ -789,7 +890,7 @@ Lemma PN_filter n (HE : PE n) (HN : PN n) src e sc ss fs :
   sim ss sc -> iter_ok ss (ItFilter src e) fs ->
   hoare (next (S n) (ItFilter src e) sc) (NPost ss fs).
 Proof.
-  intros Sm H. inversion H as [| | |? ? ? Hsrc He| |]; subst. cbn [next_g].
+  intros Sm H. inversion H as [| | |? ? ? Hsrc He| | |]; subst. cbn [next_g].
   match goal with |- hoare (?F ?K src) _ => set (L := F); generalize K as k end.
   assert (EQ : forall k src0, L (S k) src0 =
      (do r <- next n src0 (fork sc);
@@ -816,7 +917,7 @@ Lemma PN_limit n (HN : PN n) src cnt off cur sc ss fs :
   sim ss sc -> iter_ok ss (ItLimit src cnt off cur) fs ->
   hoare (next (S n) (ItLimit src cnt off cur) sc) (NPost ss fs).
 Proof.
-  intros Sm H. inversion H as [| | | |? ? ? ? ? Hsrc|]; subst. cbn [next_g].
+  intros Sm H. inversion H as [| | | |? ? ? ? ? Hsrc| |]; subst. cbn [next_g].
   eapply hoare_bind with (P := fun st => match st with None => True | Some (src1, _) => iter_ok ss src1 fs end).
   - match goal with |- hoare (?F ?K src cur) _ => set (L := F); generalize K as k end.
     assert (EQ : forall k src0 cur0, L (S k) src0 cur0 =
@@ -935,7 +1036,7 @@ Lemma PN_sort n (HE : PE n) (HN : PN n) src ks st sc ss fs :
   sim ss sc -> iter_ok ss (ItSort src ks st) fs ->
   hoare (next (S n) (ItSort src ks st) sc) (NPost ss fs).
 Proof.
-  intros Sm H. inversion H as [| | | | |? ? ? ? Hsrc Hks Hst]; subst. rewrite next_sort_eq.
+  intros Sm H. inversion H as [| | | | |? ? ? ? Hsrc Hks Hst|]; subst. rewrite next_sort_eq.
   eapply hoare_bind with (P := Forall (sim fs)).
   - destruct st as [rows|]; [apply hoare_ret; apply Hst; reflexivity|].
     eapply hoare_bind; [apply (drain_sound n HN sc ss fs Sm n src [] Hsrc); constructor|intros scopes Hs].
@@ -949,6 +1050,470 @@ Proof.
     constructor; [exact Hsrc|exact Hks|]. intros rows E. inversion E; subst. assumption.
 Qed.
 
+
+(* ====================================================================== *)
+(* COLLECT: the local loops of the collect iterator, named                 *)
+Definition aggr_args_f (n : nat) (s : frames) :=
+  fix args_ (as_ : list expr) (col : list (list value)) : M (list (list value)) :=
+    match as_, col with
+    | a :: ar, c :: cr0 => do v <- eval n a s; do rest <- args_ ar cr0; ret ((c ++ [v]) :: rest)
+    | _, _ => ret []
+    end.
+Definition aggr_sels_f (n : nat) (s : frames) :=
+  fix sels_ (ss : list (name * name * list expr)) (acc : list (list (list value)))
+    : M (list (list (list value))) :=
+    match ss, acc with
+    | (_, _, args) :: sr, col :: cr =>
+        do col' <- aggr_args_f n s args col;
+        do rest <- sels_ sr cr;
+        ret (col' :: rest)
+    | _, _ => ret []
+    end.
+Definition aggr_rows_f (n : nat) (sc : frames) (sels : list (name * name * list expr)) :=
+  fix rows_ (k : nat) (src : iter) (acc : list (list (list value))) (cnt : nat)
+    : M (list (list (list value)) * nat) :=
+    match k with
+    | O => fail OutOfFuel
+    | S k' =>
+        do r <- next n src (fork sc);
+        match r with
+        | None => ret (acc, cnt)
+        | Some (s, src') =>
+            do acc' <- aggr_sels_f n s sels acc;
+            rows_ k' src' acc' (S cnt)
+        end
+    end.
+Definition aggr_red_f (nrows : nat) :=
+  fix red (ss : list (name * name * list expr)) (cols : list (list (list value))) (cs : frames) : M frames :=
+    match ss, cols with
+    | (x, f, _) :: sr, col :: cr =>
+        let args := match nrows with O => [] | _ => map VArr col end in
+        do _ <- check_ctx;
+        do v <- call_fn f args;
+        do cs' <- set_var x v cs;
+        red sr cr cs'
+    | _, _ => ret cs
+    end.
+Definition grp_gk_f (n : nat) (ds : frames) :=
+  fix gk (gs : list (name * expr)) (cs : frames) : M (list value * frames) :=
+    match gs with
+    | [] => ret ([], cs)
+    | (x, e) :: gr =>
+        do v <- eval n e ds;
+        do cs1 <- set_var x v cs;
+        do rest <- gk gr cs1;
+        ret (v :: fst rest, snd rest)
+    end.
+Definition grp_ini_f :=
+  fix ini (ss : list (name * name * list expr)) (cs : frames) : M frames :=
+    match ss with
+    | [] => ret cs
+    | (x, _, args) :: sr =>
+        do cs1 <- set_var x (VArr (map (fun _ => VArr []) args)) cs;
+        ini sr cs1
+    end.
+Definition grp_ev_f (n : nat) (ds : frames) :=
+  fix ev (as_ : list expr) : M (list value) :=
+    match as_ with
+    | [] => ret []
+    | a :: ar => do v <- eval n a ds; do vs <- ev ar; ret (v :: vs)
+    end.
+Definition grp_ag_f (n : nat) (ds : frames) (idx : nat) :=
+  fix ag (ss : list (name * name * list expr)) (acc : list (list value * frames)) : M (list (list value * frames)) :=
+    match ss with
+    | [] => ret acc
+    | (x, _, args) :: sr =>
+        do vals <- grp_ev_f n ds args;
+        ag sr (update_nth idx (fun g => (fst g, frame0_update x
+                (fun m => match m with
+                          | VArr cols => VArr (map (fun p => arr_push (snd p) (fst p)) (combine cols vals))
+                          | o => o
+                          end) (snd g))) acc)
+    end.
+Definition grp_f (n : nat) (sc : frames) (gs : list (name * expr)) (t : ctail) (vv : name) :=
+  fix grp (k : nat) (src : iter) (acc : list (list value * frames)) : M (list (list value * frames)) :=
+    match k with
+    | O => fail OutOfFuel
+    | S k' =>
+        do r <- next n src (fork sc);
+        match r with
+        | None => ret acc
+        | Some (ds, src') =>
+            do kvs <- grp_gk_f n ds gs (fork sc);
+            let '(k0, cs) := kvs in
+            do accidx <-
+              (match find_group k0 acc 0 with
+               | Some i => ret (acc, i)
+               | None =>
+                   do cs' <- (match t with
+                              | CTInto x _ => set_var x (VArr []) cs
+                              | CTCount x => set_var x (VInt 0) cs
+                              | CTAggr sels => grp_ini_f sels cs
+                              | CTNone => ret cs
+                              end);
+                   ret (acc ++ [(k0, cs')], length acc)
+               end);
+            let '(acc1, idx) := accidx in
+            do acc2 <-
+              (match t with
+               | CTInto x proj =>
+                   do v <- (match proj with
+                            | Some pe => eval n pe ds
+                            | None => do cur <- get_var vv ds; ret (VObj [(vv, cur)])
+                            end);
+                   ret (update_nth idx (fun g => (fst g, frame0_update x (arr_push v) (snd g))) acc1)
+               | CTCount x =>
+                   ret (update_nth idx (fun g => (fst g, frame0_update x
+                          (fun c => match c with VInt z => VInt (z + 1) | o => o end) (snd g))) acc1)
+               | CTAggr sels => grp_ag_f n ds idx sels acc1
+               | CTNone => ret acc1
+               end);
+            grp k' src' acc2
+        end
+    end.
+Definition fin_red_f :=
+  fix red (ss : list (name * name * list expr)) (cs : frames) : M frames :=
+    match ss with
+    | [] => ret cs
+    | (x, f, _) :: sr =>
+        do m <- get_var x cs;
+        do _ <- check_ctx;
+        do v <- call_fn f (match m with VArr cols => cols | _ => [] end);
+        red sr (frame0_update x (fun _ => v) cs)
+    end.
+Definition fin_f (sels : list (name * name * list expr)) :=
+  fix fin (gl : list (list value * frames)) : M (list frames) :=
+    match gl with
+    | [] => ret []
+    | (_, cs) :: gr =>
+        do cs' <- fin_red_f sels cs;
+        do rest <- fin gr;
+        ret (cs' :: rest)
+    end.
+
+Definition collect_rows (n : nat) (sc : frames) (src : iter) (gs : list (name * expr)) (t : ctail) (vv : name)
+  : M (list frames) :=
+  match gs with
+  | [] =>
+      match t with
+      | CTCount x =>
+          do scopes <- drain_f n sc n src [];
+          do cs <- set_var x (VInt (Z.of_nat (length scopes))) (fork sc);
+          ret [cs]
+      | CTAggr sels =>
+          do colsn <- aggr_rows_f n sc sels n src (map (fun sel => map (fun _ => []) (snd sel)) sels) O;
+          let '(cols, nrows) := colsn in
+          do cs <- aggr_red_f nrows sels cols (fork sc);
+          ret [cs]
+      | _ => fail (Err EOther)
+      end
+  | _ =>
+      do groups <- grp_f n sc gs t vv n src [];
+      match t with
+      | CTAggr sels => fin_f sels groups
+      | _ => ret (map snd groups)
+      end
+  end.
+
+Lemma next_collect_eq n src gs t vv st sc :
+  next (S n) (ItCollect src gs t vv st) sc =
+  (do rows <- (match st with
+               | Some rows => ret rows
+               | None => collect_rows n sc src gs t vv
+               end);
+   match rows with
+   | [] => ret None
+   | s :: r => ret (Some (s, ItCollect src gs t vv (Some r)))
+   end).
+Proof. reflexivity. Qed.
+
+(* ---------- COLLECT: helper lemmas *)
+Lemma declare_all_app : forall xs ys ss0,
+  declare_all (xs ++ ys) ss0 =
+  match declare_all xs ss0 with (COk, s1) => declare_all ys s1 | r => r end.
+Proof.
+  induction xs as [|x r IH]; intros ys ss0; cbn; [reflexivity|].
+  destruct (declare x ss0) as [c s1]. destruct c; try reflexivity. apply IH.
+Qed.
+
+Lemma frame_get_update y x v f :
+  (frame_get y (frame_update x v f) = None) <-> (frame_get y f = None).
+Proof.
+  induction f as [|[k o] r IH]; cbn; [tauto|].
+  destruct (bytes_eqb k x) eqn:E; cbn; destruct (bytes_eqb k y); try tauto; split; discriminate.
+Qed.
+
+Lemma sim_frame0_update fs cs x g : sim fs cs -> sim fs (frame0_update x g cs).
+Proof.
+  intros (H0 & H1 & H2 & H3). destruct cs as [|fr r]; [contradiction|]. unfold frame0_update.
+  split; [exact H0|]. split; [discriminate|].
+  destruct (frame_get x fr) as [v|] eqn:G; [|repeat split; auto].
+  split.
+  - intros y V. specialize (H2 y V). cbn [scope_get] in *.
+    destruct (frame_get y (frame_update x (g v) fr)) eqn:E; [discriminate|].
+    apply frame_get_update in E. rewrite E in H2. exact H2.
+  - intros y F. cbn [hd] in *. apply H3. intro E. apply F. apply frame_get_update. exact E.
+Qed.
+
+Lemma update_nth_forall {A} (P : A -> Prop) (f : A -> A) : (forall a, P a -> P (f a)) ->
+  forall l i, Forall P l -> Forall P (update_nth i f l).
+Proof.
+  intros Hf. induction l as [|x r IH]; intros i F; [destruct i; constructor|].
+  inversion F; subst. destruct i; cbn; constructor; auto.
+Qed.
+
+(* every declared name (other than the ignore variable) is visible afterwards *)
+Lemma declare_keeps_visible y x ss0 ss1 : declare x ss0 = (COk, ss1) -> visible y ss0 = true -> visible y ss1 = true.
+Proof.
+  unfold declare. destruct (bytes_eqb x ign); [intro H; inversion H; auto|].
+  destruct ss0 as [|f r]; [intros _ V; discriminate|].
+  destruct (in_frame x f); intro H; inversion H; subst. intro V. cbn in *. unfold in_frame in *. cbn.
+  destruct (bytes_eqb y x); cbn; auto.
+Qed.
+Lemma declare_makes_visible x ss0 ss1 : bytes_eqb x ign = false -> declare x ss0 = (COk, ss1) -> visible x ss1 = true.
+Proof.
+  intros E. unfold declare. rewrite E. destruct ss0 as [|f r].
+  - intro H; inversion H; subst. cbn. unfold in_frame; cbn. rewrite bytes_eqb_refl. reflexivity.
+  - destruct (in_frame x f); intro H; inversion H; subst. cbn. unfold in_frame; cbn. rewrite bytes_eqb_refl. reflexivity.
+Qed.
+Lemma declare_all_keeps_visible y : forall xs ss0 ss1, declare_all xs ss0 = (COk, ss1) -> visible y ss0 = true -> visible y ss1 = true.
+Proof.
+  induction xs as [|x r IH]; intros ss0 ss1 H V; cbn in H; [inversion H; subst; exact V|].
+  destruct (declare x ss0) as [c s1] eqn:D. destruct c; try (inversion H; fail).
+  eapply IH; [exact H|]. eapply declare_keeps_visible; eauto.
+Qed.
+Lemma declare_all_makes_visible : forall xs ss0 ss1 x,
+  declare_all xs ss0 = (COk, ss1) -> In x xs -> bytes_eqb x ign = false -> visible x ss1 = true.
+Proof.
+  induction xs as [|y r IH]; intros ss0 ss1 x H I E; [destruct I|]. cbn in H.
+  destruct (declare y ss0) as [c s1] eqn:D. destruct c; try (inversion H; fail).
+  destruct I as [->|I].
+  - eapply declare_all_keeps_visible; [exact H|]. eapply declare_makes_visible; eauto.
+  - eapply IH; eauto.
+Qed.
+
+(* ---------- COLLECT without grouping *)
+Lemma aggr_args_sound n (HE : PE n) s fs0 : sim fs0 s -> forall args col,
+  Forall (fun a => ok_expr a fs0) args -> hoare (aggr_args_f n s args col) (fun _ => True).
+Proof.
+  intros Ss. induction args as [|a ar IH]; intros col F; [destruct col; apply hoare_ret; exact I|].
+  inversion F; subst. destruct col as [|c cr]; [apply hoare_ret; exact I|]. cbn [aggr_args_f].
+  eapply hoare_bind; [apply (HE a s fs0 Ss); assumption|intros v _].
+  eapply hoare_bind; [apply IH; assumption|intros rest _]. apply hoare_ret; exact I.
+Qed.
+
+Lemma aggr_sels_sound n (HE : PE n) s fs0 : sim fs0 s -> forall sels acc,
+  Forall (fun sl => Forall (fun a => ok_expr a fs0) (snd sl)) sels -> length acc = length sels ->
+  hoare (aggr_sels_f n s sels acc) (fun acc' => length acc' = length sels).
+Proof.
+  intros Ss. induction sels as [|[[x f] args] sr IH]; intros acc F L.
+  - destruct acc; apply hoare_ret; reflexivity.
+  - destruct acc as [|col cr]; [discriminate|]. inversion F; subst. cbn [aggr_sels_f].
+    eapply hoare_bind; [apply (aggr_args_sound n HE s fs0 Ss); assumption|intros col' _].
+    eapply hoare_bind; [apply IH; [assumption|cbn in L; congruence]|intros rest Hr].
+    apply hoare_ret. cbn. congruence.
+Qed.
+
+Lemma aggr_rows_sound n (HE : PE n) (HN : PN n) sc ss fs0 sels :
+  sim ss sc -> Forall (fun sl => Forall (fun a => ok_expr a fs0) (snd sl)) sels ->
+  forall k src acc cnt, iter_ok ss src fs0 -> length acc = length sels ->
+  hoare (aggr_rows_f n sc sels k src acc cnt) (fun r => length (fst r) = length sels).
+Proof.
+  intros Sm F. induction k as [|k IH]; intros src acc cnt Hsrc L; [apply hoare_outoffuel|].
+  cbn [aggr_rows_f].
+  eapply hoare_bind; [apply (HN src (fork sc) ss fs0 (sim_fork ss sc Sm) Hsrc)|intros r Hr].
+  destruct r as [[s src']|]; [|apply hoare_ret; exact L]. destruct Hr as [Ss Hsrc'].
+  eapply hoare_bind; [apply (aggr_sels_sound n HE s fs0 Ss); assumption|intros acc' L'].
+  apply IH; assumption.
+Qed.
+
+Lemma aggr_red_sound nrows : forall sels cols cs ss1 fs,
+  sim ss1 cs -> length cols = length sels ->
+  declare_all (map (fun s => fst (fst s)) sels) ss1 = (COk, fs) ->
+  hoare (aggr_red_f nrows sels cols cs) (fun cs' => sim fs cs').
+Proof.
+  induction sels as [|[[x f] args] sr IH]; intros cols cs ss1 fs Sm L D.
+  - cbn in D. inversion D; subst. destruct cols; apply hoare_ret; exact Sm.
+  - destruct cols as [|col cr]; [discriminate|]. cbn [aggr_red_f map fst] in *. cbn [declare_all] in D.
+    destruct (declare x ss1) as [c s1] eqn:Dx. destruct c; try (inversion D; fail).
+    eapply hoare_bind; [apply hoare_check_ctx|intros _ _].
+    eapply hoare_bind; [apply hoare_call_fn|intros v _].
+    eapply hoare_bind; [apply (sim_declare x v ss1 s1 cs Sm Dx)|intros cs' S'].
+    eapply IH; [exact S'|cbn in L; congruence|exact D].
+Qed.
+
+(* ---------- COLLECT with grouping *)
+Lemma grp_gk_sound n (HE : PE n) ds fs0 : sim fs0 ds -> forall gs0 cs ss1 ss2,
+  sim ss1 cs -> Forall (fun g => ok_expr (snd g) fs0) gs0 ->
+  declare_all (map fst gs0) ss1 = (COk, ss2) ->
+  hoare (grp_gk_f n ds gs0 cs) (fun r => sim ss2 (snd r)).
+Proof.
+  intros Sd. induction gs0 as [|[x e] gr IH]; intros cs ss1 ss2 Sc F D.
+  - cbn in D. inversion D; subst. apply hoare_ret. exact Sc.
+  - inversion F; subst. cbn [grp_gk_f map fst declare_all] in *.
+    destruct (declare x ss1) as [c s1] eqn:Dx. destruct c; try (inversion D; fail).
+    eapply hoare_bind; [apply (HE e ds fs0 Sd); assumption|intros v _].
+    eapply hoare_bind; [apply (sim_declare x v ss1 s1 cs Sc Dx)|intros cs1 S1].
+    eapply hoare_bind; [apply (IH cs1 s1 ss2 S1); assumption|intros rest Hr].
+    apply hoare_ret. exact Hr.
+Qed.
+
+Lemma grp_ini_sound : forall sels cs ss1 ss2,
+  sim ss1 cs -> declare_all (map (fun s => fst (fst s)) sels) ss1 = (COk, ss2) ->
+  hoare (grp_ini_f sels cs) (fun cs' => sim ss2 cs').
+Proof.
+  induction sels as [|[[x f] args] sr IH]; intros cs ss1 ss2 Sc D.
+  - cbn in D. inversion D; subst. apply hoare_ret; exact Sc.
+  - cbn [grp_ini_f map fst declare_all] in *.
+    destruct (declare x ss1) as [c s1] eqn:Dx. destruct c; try (inversion D; fail).
+    eapply hoare_bind; [apply (sim_declare x _ ss1 s1 cs Sc Dx)|intros cs1 S1].
+    eapply IH; eauto.
+Qed.
+
+Lemma grp_ev_sound n (HE : PE n) ds fs0 : sim fs0 ds -> forall args,
+  Forall (fun a => ok_expr a fs0) args -> hoare (grp_ev_f n ds args) (fun _ => True).
+Proof.
+  intros Sd. induction args as [|a ar IH]; intro F; [apply hoare_ret; exact I|].
+  inversion F; subst. cbn [grp_ev_f].
+  eapply hoare_bind; [apply (HE a ds fs0 Sd); assumption|intros v _].
+  eapply hoare_bind; [apply IH; assumption|intros vs _]. apply hoare_ret; exact I.
+Qed.
+
+Definition groups_ok (fs : sframes) (acc : list (list value * frames)) : Prop :=
+  Forall (fun g => sim fs (snd g)) acc.
+
+Lemma groups_update fs acc idx x g :
+  groups_ok fs acc -> groups_ok fs (update_nth idx (fun gr => (fst gr, frame0_update x g (snd gr))) acc).
+Proof.
+  intro H. apply update_nth_forall; [|exact H]. intros [k cs] Hc. cbn in *. apply sim_frame0_update. exact Hc.
+Qed.
+
+Lemma grp_ag_sound n (HE : PE n) ds fs0 fs idx : sim fs0 ds -> forall sels acc,
+  Forall (fun sl => Forall (fun a => ok_expr a fs0) (snd sl)) sels -> groups_ok fs acc ->
+  hoare (grp_ag_f n ds idx sels acc) (groups_ok fs).
+Proof.
+  intros Sd. induction sels as [|[[x f] args] sr IH]; intros acc F G; [apply hoare_ret; exact G|].
+  inversion F; subst. cbn [grp_ag_f].
+  eapply hoare_bind; [apply (grp_ev_sound n HE ds fs0 Sd); assumption|intros vals _].
+  apply IH; [assumption|]. apply groups_update. exact G.
+Qed.
+
+Lemma grp_sound n (HE : PE n) (HN : PN n) sc ss fs0 fsm fs gs t vv :
+  sim ss sc ->
+  Forall (fun g => ok_expr (snd g) fs0) gs -> tail_ok t vv fs0 ->
+  declare_all (map fst gs) (sfork ss) = (COk, fsm) ->
+  declare_all (match t with
+               | CTInto x _ => [x]
+               | CTCount x => [x]
+               | CTAggr sels => map (fun s => fst (fst s)) sels
+               | CTNone => []
+               end) fsm = (COk, fs) ->
+  forall k src acc, iter_ok ss src fs0 -> groups_ok fs acc ->
+  hoare (grp_f n sc gs t vv k src acc) (groups_ok fs).
+Proof.
+  intros Sm Hg Ht D1 D2. induction k as [|k IH]; intros src acc Hsrc G; [apply hoare_outoffuel|].
+  cbn [grp_f].
+  eapply hoare_bind; [apply (HN src (fork sc) ss fs0 (sim_fork ss sc Sm) Hsrc)|intros r Hr].
+  destruct r as [[ds src']|]; [|apply hoare_ret; exact G]. destruct Hr as [Sd Hsrc'].
+  eapply hoare_bind; [apply (grp_gk_sound n HE ds fs0 Sd gs (fork sc) (sfork ss) fsm (sim_sfork ss sc Sm) Hg D1)|].
+  intros [k0 cs] Scs. cbn [snd] in Scs.
+  eapply hoare_bind with (P := fun ai => groups_ok fs (fst ai)).
+  - destruct (find_group k0 acc 0); [apply hoare_ret; exact G|].
+    eapply hoare_bind with (P := fun cs' => sim fs cs').
+    + destruct t as [|x p|x|sels]; cbn [declare_all] in D2.
+      * inversion D2; subst. apply hoare_ret; exact Scs.
+      * destruct (declare x fsm) as [c s1] eqn:Dx. destruct c; try (inversion D2; fail). inversion D2; subst.
+        apply (sim_declare x _ fsm fs cs Scs Dx).
+      * destruct (declare x fsm) as [c s1] eqn:Dx. destruct c; try (inversion D2; fail). inversion D2; subst.
+        apply (sim_declare x _ fsm fs cs Scs Dx).
+      * apply (grp_ini_sound sels cs fsm fs Scs D2).
+    + intros cs' S'. apply hoare_ret. cbn [fst]. unfold groups_ok. apply Forall_app. split; [exact G|constructor; [exact S'|constructor]].
+  - intros [acc1 idx] G1. cbn [fst] in G1.
+    eapply hoare_bind with (P := groups_ok fs); [|intros acc2 G2; apply IH; assumption].
+    destruct t as [|x p|x|sels]; unfold tail_ok in Ht.
+    + apply hoare_ret; exact G1.
+    + eapply hoare_bind with (P := fun _ => True).
+      * destruct p as [pe|]; [apply (HE pe ds fs0 Sd Ht)|].
+        eapply hoare_bind; [apply (sim_get_var vv fs0 ds Sd Ht)|intros cur _]. apply hoare_ret; exact I.
+      * intros v _. apply hoare_ret. apply groups_update. exact G1.
+    + apply hoare_ret. apply groups_update. exact G1.
+    + apply (grp_ag_sound n HE ds fs0 fs idx Sd sels acc1 Ht G1).
+Qed.
+
+Lemma fin_red_sound fs : forall sels0 cs,
+  sim fs cs -> Forall (fun sl => visible (fst (fst sl)) fs = true) sels0 ->
+  hoare (fin_red_f sels0 cs) (fun cs' => sim fs cs').
+Proof.
+  induction sels0 as [|[[x f] args] sr IH]; intros cs Sc V; [apply hoare_ret; exact Sc|].
+  inversion V; subst. cbn [fin_red_f].
+  eapply hoare_bind; [apply (sim_get_var x fs cs Sc); assumption|intros m _].
+  eapply hoare_bind; [apply hoare_check_ctx|intros _ _].
+  eapply hoare_bind; [apply hoare_call_fn|intros v _].
+  apply IH; [apply sim_frame0_update; exact Sc|assumption].
+Qed.
+
+Lemma fin_sound fs sels : Forall (fun sl => visible (fst (fst sl)) fs = true) sels ->
+  forall gl, groups_ok fs gl -> hoare (fin_f sels gl) (Forall (sim fs)).
+Proof.
+  intros V. induction gl as [|[k cs] gr IH]; intro G; [apply hoare_ret; constructor|].
+  inversion G; subst. cbn [fin_f].
+  eapply hoare_bind; [apply (fin_red_sound fs sels cs); assumption|intros cs' S'].
+  eapply hoare_bind; [apply IH; assumption|intros rest Hr]. apply hoare_ret. constructor; assumption.
+Qed.
+
+Lemma existsb_false_forall {A} (p : A -> bool) l : existsb p l = false -> Forall (fun x => p x = false) l.
+Proof.
+  induction l as [|x r IH]; cbn; intro H; [constructor|].
+  apply Bool.orb_false_elim in H as [H1 H2]. constructor; auto.
+Qed.
+
+Lemma PN_collect n (HE : PE n) (HN : PN n) src gs t vv st sc ss fs :
+  sim ss sc -> iter_ok ss (ItCollect src gs t vv st) fs ->
+  hoare (next (S n) (ItCollect src gs t vv st) sc) (NPost ss fs).
+Proof.
+  intros Sm H. inversion H as [| | | | | |? ? ? ? ? fs0 ? Eco Hsrc Hg Ht Hign D Hst]; subst.
+  rewrite next_collect_eq.
+  eapply hoare_bind with (P := Forall (sim fs)).
+  - destruct st as [rows|]; [apply hoare_ret; apply Hst; reflexivity|].
+    unfold collect_rows. unfold collect_vars in D, Hign.
+    destruct gs as [|g0 gr].
+    + (* no grouping *)
+      cbn [map app] in D. destruct t as [|x p|x|sels];
+        try (apply hoare_fail; [intros a E; discriminate|reflexivity]).
+      * (* WITH COUNT INTO x *)
+        cbn [declare_all] in D. destruct (declare x (sfork ss)) as [c s1] eqn:Dx.
+        destruct c; try (inversion D; fail). inversion D; subst.
+        eapply hoare_bind; [apply hoare_any with (Q := Forall (sim fs0));
+                            apply (drain_sound n HN sc ss fs0 Sm n src [] Hsrc); constructor|intros scopes _].
+        eapply hoare_bind; [apply (sim_declare x _ (sfork ss) fs (fork sc) (sim_sfork ss sc Sm) Dx)|intros cs Sc].
+        apply hoare_ret. constructor; [exact Sc|constructor].
+      * (* AGGREGATE *)
+        unfold tail_ok in Ht.
+        eapply hoare_bind; [apply (aggr_rows_sound n HE HN sc ss fs0 sels Sm Ht n src _ O Hsrc); rewrite map_length; reflexivity|].
+        intros [cols nrows] L. cbn [fst] in L.
+        eapply hoare_bind; [apply (aggr_red_sound nrows sels cols (fork sc) (sfork ss) fs (sim_sfork ss sc Sm) L D)|intros cs Sc].
+        apply hoare_ret. constructor; [exact Sc|constructor].
+    + (* grouping *)
+      rewrite declare_all_app in D.
+      destruct (declare_all (map fst (g0 :: gr)) (sfork ss)) as [c fsm] eqn:D1.
+      destruct c; try (inversion D; fail).
+      eapply hoare_bind; [apply (grp_sound n HE HN sc ss fs0 fsm fs (g0 :: gr) t vv Sm Hg Ht D1 D n src [] Hsrc); constructor|].
+      intros groups G.
+      assert (Fin : forall sels, t = CTAggr sels -> hoare (fin_f sels groups) (Forall (sim fs))).
+      { intros sels ->. apply fin_sound; [|exact G].
+        apply existsb_false_forall in Hign. apply Forall_app in Hign as [_ Hs].
+        clear -Hs D. revert D. generalize fsm. 
+        assert (K : forall sl, In sl sels -> bytes_eqb (fst (fst sl)) ign = false).
+        { intros sl I. rewrite Forall_forall in Hs. apply Hs. apply in_map_iff. exists sl. auto. }
+        intros fsm0 D. apply Forall_forall. intros sl I.
+        eapply declare_all_makes_visible; [exact D| |apply K; exact I]. apply in_map_iff. exists sl. auto. }
+      destruct t as [|x p|x|sels]; try (apply hoare_ret; unfold groups_ok in G; clear -G; induction G; cbn; constructor; auto).
+      apply Fin. reflexivity.
+  - intros rows Hr. destruct rows as [|s r]; [apply hoare_ret; exact I|].
+    inversion Hr; subst. apply hoare_ret. split; [assumption|].
+    econstructor; eauto. intros rows E. inversion E; subst. assumption.
+Qed.
+
 (* ---------- all iterators of the COLLECT-free fragment *)
 Lemma PN_step n : PE n -> PN n -> PN (S n).
 Proof.
@@ -959,7 +1524,7 @@ Proof.
   - apply PN_filter; assumption.
   - apply PN_limit; assumption.
   - apply PN_sort; assumption.
-  - inversion H.
+  - apply PN_collect; assumption.
 Qed.
 
 Lemma P0 : PE 0 /\ PF 0 /\ PI 0 /\ PN 0.
@@ -1024,17 +1589,17 @@ Lemma run_body_eq fuel p :
    end).
 Proof. reflexivity. Qed.
 Lemma chk_program_eq cf p :
-  chk_program true false cf p =
+  chk_program true co cf p =
   chk_stmts_top cf (fun sc => match p_ret p with
                               | BReturn e => chkE cf e sc
                               | BFor q => chkF cf q sc
                               end) (p_stmts p) [[]].
 Proof. reflexivity. Qed.
 
-(* a program the specified checker accepts (COLLECT-free fragment) never fails
-   at run time with a scope error: for every fuel and every world, i.e. every
-   parameter set, cancellation point and injected failure *)
-Theorem check_sound_nocollect : forall p cf, chk_program true false cf p = COk ->
+(* a program the specified checker accepts never fails at run time with a scope
+   error: for every fuel and every world, i.e. every parameter set,
+   cancellation point and injected failure *)
+Theorem check_sound_co : forall p cf, chk_program true co cf p = COk ->
   forall fuel w, scope_err (fst (run_body fuel p w)) = false.
 Proof.
   intros p cf C fuel w.
@@ -1048,3 +1613,14 @@ Proof.
     - apply (HF q sc ss' S'). exists cf; exact CR. }
   specialize (G w). destruct (run_body fuel p w) as [o w']. destruct o; cbn in *; auto.
 Qed.
+
+End Co.
+
+(* the full checker (COLLECT in all six forms included) *)
+Theorem check_sound_full : forall p cf, chk_program true true cf p = COk ->
+  forall fuel w, scope_err (fst (run_body fuel p w)) = false.
+Proof. exact (check_sound_co true). Qed.
+
+Theorem check_sound_nocollect : forall p cf, chk_program true false cf p = COk ->
+  forall fuel w, scope_err (fst (run_body fuel p w)) = false.
+Proof. exact (check_sound_co false). Qed.
